@@ -886,6 +886,19 @@ def rule_no_empty_frame(res, rid, m):
         if p.end == "exit" and p.blocks.count(m.loop_block) == 1 and m.putPacket.cfg.succ[m.loop_block][0] not in p.blocks:
             continue  # zero iterations: payload length 0 is outside the property's domain
         ev = _events(m, f, p)
+        if not any(k == "H" for k, _ in ev):
+            # the same case spelled as an early return: the path leaves under `position >= payload length` before anything was placed
+            posv = loop_position_vars(m)
+            empty = False
+            for a in p.atoms:
+                if a[0] == "cmp" and len(posv) == 1:
+                    for x, y, o in ((a[4], a[5], a[2]), (a[5], a[4], facts._flip_op(a[2]))):
+                        if o in (">=", "==") and strip_all_casts(x).get("decl") == posv[0] and PKT + "::getPayloadLength" in called_names(facts.expand(f, y)):
+                            empty = True
+                        if o in ("==", "<=") and PKT + "::getPayloadLength" in called_names(facts.expand(f, x)) and const_value(y) == 0:
+                            empty = True
+            if empty and p.end == "exit":
+                continue
         state = "unknown"
         for i, (k, x) in enumerate(ev):
             if k in ("O", "o"):
